@@ -636,3 +636,43 @@ package weshnet
 //@        && (ret0.Metadata.EventType == 302 ==> sigGroup(g, ret0.Metadata))
 //@        && (ret0.Metadata.EventType == 1 ==> sigMemberDevice(ret0.Metadata, ret1))
 //@        && (ret0.Metadata.EventType != 302 && ret0.Metadata.EventType != 1 ==> sigDevice(ret0.Metadata, ret1))
+
+//@ # ======================= C04: the index is a function of the log's entry set =======================
+//@ # the re-scan walks the log in its deterministic order (what Values() returns), not in arrival order: the slice it
+//@ # iterates over is element for element the log order
+//@ func (*metadataStoreIndex).UpdateIndex
+//@   for C04
+//@   havocall
+//@   stable m != nil && m.group != nil && m.logger != nil
+//@   requires log != nil && unlocked(addr(m.lock))
+//@   at (berty.tech/go-ipfs-log/iface.IPFSLogOrderedEntries).Slice requires [C04.scan.log-order] omlen(om) == loglen(caller_log)
+//@        && (forall i {omat(om, i)} :: 0 <= i && i < loglen(caller_log) ==> omat(om, i) == logat(caller_log, i))
+//@ # sets held by the index are sets of keys, not of key objects: no two admins with the same key bytes, whatever
+//@ # objects the keys were decoded into (re-indexing decodes fresh objects every time)
+//@ pred adminsOK(m) = m != nil && m.admins != nil && (forall a Ref {has(m.admins, a)} :: has(m.admins, a) ==> a != nil) && (forall a Ref, b Ref {has(m.admins, a), has(m.admins, b)} :: has(m.admins, a) && has(m.admins, b) && pkv(a) == pkv(b) ==> a == b)
+//@ func (*metadataStoreIndex).handleMultiMemberInitialMember
+//@   for C04
+//@   safety
+//@   requires adminsOK(m)
+//@   modifies mapof(m.admins)
+//@   ensures [C04.admins.set] adminsOK(m)
+//@   loop 0 invariant adminsOK(m)
+//@   loop 0 invariant forall a Ref {has(m.admins, a)} :: has(m.admins, a) == old(has(m.admins, a))
+//@   loop 0 invariant forall a Ref {visited(m.admins, a)} :: visited(m.admins, a) ==> pkv(a) != pkv(pk)
+//@   loop 0 invariant pk != nil && typeis(event, "*berty.tech/weshnet/v2/pkg/protocoltypes.MultiMemberGroupInitialMemberAnnounced") && pkv(pk) == bytes(as(event, "*berty.tech/weshnet/v2/pkg/protocoltypes.MultiMemberGroupInitialMemberAnnounced").MemberPk)
+//@   ensures [C04.admins.idempotent] (exists a Ref :: old(has(m.admins, a)) && typeis(event, "*berty.tech/weshnet/v2/pkg/protocoltypes.MultiMemberGroupInitialMemberAnnounced")
+//@        && pkv(a) == bytes(as(event, "*berty.tech/weshnet/v2/pkg/protocoltypes.MultiMemberGroupInitialMemberAnnounced").MemberPk))
+//@        ==> (forall a Ref {has(m.admins, a)} :: has(m.admins, a) == old(has(m.admins, a)))
+//@ # a device announced twice is recorded once (devices are keyed by the key bytes)
+//@ func (*metadataStoreIndex).handleGroupMemberDeviceAdded
+//@   for C04
+//@   safety
+//@   requires m != nil && m.devices != nil && m.members != nil && m.devices != m.members
+//@   modifies mapof(m.devices), mapof(m.members)
+//@   ensures [C04.devices.idempotent] typeis(event, "*berty.tech/weshnet/v2/pkg/protocoltypes.GroupMemberDeviceAdded")
+//@        && old(has(m.devices, bytes(as(event, "*berty.tech/weshnet/v2/pkg/protocoltypes.GroupMemberDeviceAdded").DevicePk)))
+//@        ==> (forall k Bytes {has(m.devices, k)} :: has(m.devices, k) == old(has(m.devices, k)) && m.devices[k] == old(m.devices[k]))
+//@          && (forall k Bytes {has(m.members, k)} :: has(m.members, k) == old(has(m.members, k)) && m.members[k] == old(m.members[k]))
+//@ extern berty.tech/weshnet/v2/pkg/secretstore.NewMemberDevice(member, device) (md)
+//@   noeffect
+//@   ensures md != nil
